@@ -407,5 +407,263 @@ theorem removeColumn_ofRows {c : Nat} (rs : Rows α) (h : Rect c rs) (hc : 1 ≤
     · simp [h1, h2]
   · simp [h1]
 
+/-! ## 2. `Vec::insert` loops: insert_row(_with), insert_column(_with) -/
+
+theorem insertIdx_append_length (X C : List α) (v : α) :
+    (X ++ C).insertIdx X.length v = X ++ v :: C := by
+  induction X with
+  | nil => simp
+  | cons a X ih => simp [List.insertIdx_succ_cons, ih]
+
+theorem insertIdx_append_right' (X Y : List α) (i : Nat) (v : α) :
+    (X ++ Y).insertIdx (X.length + i) v = X ++ Y.insertIdx i v := by
+  induction X with
+  | nil => simp
+  | cons a X ih =>
+    rw [show (a :: X).length + i = (X.length + i) + 1 by simp; omega]
+    simp [List.insertIdx_succ_cons, ih]
+
+theorem insertIdx_append_left' (X Y : List α) (v : α) :
+    ∀ i, i ≤ X.length → (X ++ Y).insertIdx i v = X.insertIdx i v ++ Y := by
+  induction X with
+  | nil => intro i hi; simp at hi; subst hi; simp
+  | cons a X ih =>
+    intro i hi
+    cases i with
+    | zero => simp
+    | succ i => simp [List.insertIdx_succ_cons, ih i (by simpa using hi)]
+
+theorem insertIdx_eq_take_drop (rs : List α) (x : α) (row : Nat) (h : row ≤ rs.length) :
+    rs.insertIdx row x = rs.take row ++ x :: rs.drop row := by
+  have hl : (rs.take row).length = row := by simp; omega
+  have := insertIdx_append_length (rs.take row) (rs.drop row) x
+  rw [List.take_append_drop, hl] at this
+  exact this
+
+/-- after fix E-02: the values are inserted one after the other behind the first `row` rows -/
+theorem insertValuesLoop_spec (columns row : Nat) (A C : List α) (hA : A.length = row * columns) :
+    ∀ (vs B : List α) (k : Nat), B.length = k →
+      insertValuesLoop columns row k vs (A ++ B ++ C) = (A ++ B ++ vs ++ C, none) := by
+  intro vs
+  induction vs with
+  | nil => intro B k _; simp [insertValuesLoop]
+  | cons v vs ih =>
+    intro B k hB
+    have hi : k + row * columns = (A ++ B).length := by simp [hA, hB]; omega
+    have hv : vecInsert (A ++ B ++ C) (k + row * columns) v = some (A ++ (B ++ [v]) ++ C) := by
+      unfold vecInsert
+      rw [hi, insertIdx_append_length]
+      simp
+    simp only [insertValuesLoop, hv]
+    rw [ih (B ++ [v]) (k + 1) (by simp [hB])]
+    simp
+
+theorem insertRowLoop_eq (columns row : Nat) (v : α) :
+    ∀ (n k : Nat) (data : List α),
+      insertRowLoop columns row v (List.range' k n) data =
+        insertValuesLoop columns row k (List.replicate n v) data := by
+  intro n
+  induction n with
+  | zero => intro k data; simp [insertRowLoop, insertValuesLoop]
+  | succ n ih =>
+    intro k data
+    simp only [List.range'_succ, List.replicate_succ, insertRowLoop, insertValuesLoop]
+    cases vecInsert data (k + row * columns) v with
+    | none => rfl
+    | some d => exact ih (k + 1) d
+
+theorem flatten_take_length {c : Nat} (rs : Rows α) (h : Rect c rs) (row : Nat)
+    (hr : row ≤ rs.length) : (rs.take row).flatten.length = row * c := by
+  rw [length_flatten_rect (h.take row)]
+  simp; congr 1; omega
+
+/-- `insert_row_with` (repaired) on the stored form -/
+theorem insertRowWith_ofRows {c : Nat} (rs : Rows α) (h : Rect c rs) (row : Nat)
+    (values : List α) :
+    (ofRows rs c).insertRowWith row values =
+      if row ≤ rs.length ∧ c ≤ values.length then
+        ⟨ofRows (rs.insertIdx row (values.take c)) c, none⟩
+      else ⟨ofRows rs c, some .explicit⟩ := by
+  unfold insertRowWith
+  simp only [ofRows]
+  by_cases h1 : row ≤ rs.length
+  · by_cases h2 : c ≤ values.length
+    · have hl : (values.take c).length = c := by simp; omega
+      simp only [h1, h2, hl, if_true, and_self]
+      have hA := flatten_take_length rs h row h1
+      have := insertValuesLoop_spec c row (rs.take row).flatten (rs.drop row).flatten hA
+        (values.take c) [] 0 rfl
+      simp only [List.append_nil] at this
+      rw [← List.flatten_append, List.take_append_drop] at this
+      rw [this]
+      simp only [Res.mk.injEq, Matrix.mk.injEq, and_true]
+      rw [insertIdx_eq_take_drop rs _ row h1]
+      simp; omega
+    · have hl : ¬ (values.take c).length = c := by simp; omega
+      simp only [h1, h2, hl, if_true, and_false, if_false]
+  · simp [h1]
+
+/-- `insert_row` on the stored form -/
+theorem insertRow_ofRows {c : Nat} (rs : Rows α) (h : Rect c rs) (row : Nat) (v : α) :
+    (ofRows rs c).insertRow row v =
+      if row ≤ rs.length then ⟨ofRows (rs.insertIdx row (List.replicate c v)) c, none⟩
+      else ⟨ofRows rs c, some .explicit⟩ := by
+  unfold insertRow
+  simp only [ofRows]
+  by_cases h1 : row ≤ rs.length
+  · simp only [h1, if_true]
+    rw [List.range_eq_range', insertRowLoop_eq]
+    have hA := flatten_take_length rs h row h1
+    have := insertValuesLoop_spec c row (rs.take row).flatten (rs.drop row).flatten hA
+      (List.replicate c v) [] 0 rfl
+    simp only [List.append_nil] at this
+    rw [← List.flatten_append, List.take_append_drop] at this
+    rw [this]
+    simp only [Res.mk.injEq, Matrix.mk.injEq, and_true]
+    rw [insertIdx_eq_take_drop rs _ row h1]
+    simp; omega
+  · simp [h1]
+
+theorem rect_insertIdx {c : Nat} (rs : Rows α) (h : Rect c rs) (row : Nat) (x : List α)
+    (hx : x.length = c) : Rect c (rs.insertIdx row x) := by
+  intro r hr
+  by_cases h1 : row ≤ rs.length
+  · rw [List.mem_insertIdx h1] at hr
+    rcases hr with rfl | hr
+    · exact hx
+    · exact h r hr
+  · rw [List.insertIdx_of_length_lt (by omega)] at hr
+    exact h r hr
+
+/-- the reverse loop of `insert_column_with`: rows are served last to first from the popped
+    values, the data behind the rows (`T`) is not touched -/
+theorem insertColumnWithLoop_spec (columns column : Nat) (hcol : column ≤ columns) :
+    ∀ (n : Nat) (init : Rows α) (vals : List α) (T : List α),
+      init.length = n → vals.length = n → Rect columns init →
+      insertColumnWithLoop columns column (List.range n).reverse vals.reverse (init.flatten ++ T) =
+        ((List.zipWith (fun r v => r.insertIdx column v) init vals).flatten ++ T, none) := by
+  intro n
+  induction n with
+  | zero =>
+    intro init vals T hi hv _
+    simp only [List.length_eq_zero_iff] at hi hv
+    subst hi hv
+    simp [insertColumnWithLoop]
+  | succ n ih =>
+    intro init vals T hi hv hrect
+    have hne : init ≠ [] := by intro e; rw [e] at hi; simp at hi
+    have hnv : vals ≠ [] := by intro e; rw [e] at hv; simp at hv
+    have ei := List.dropLast_concat_getLast hne
+    have ev := List.dropLast_concat_getLast hnv
+    generalize hI : init.dropLast = init' at ei
+    generalize hL : init.getLast hne = last at ei
+    generalize hV : vals.dropLast = v' at ev
+    generalize hW : vals.getLast hnv = vl at ev
+    have hi' : init'.length = n := by rw [← hI]; simp; omega
+    have hv' : v'.length = n := by rw [← hV]; simp; omega
+    subst ei ev
+    have hr' : Rect columns init' := hrect.of_append_left
+    have hlast : last.length = columns := hrect last (by simp)
+    have hflat : init'.flatten.length = n * columns := by
+      rw [length_flatten_rect hr', hi']
+    simp only [List.range_succ, List.reverse_append, List.reverse_cons, List.reverse_nil,
+      List.nil_append, List.cons_append, List.flatten_append, List.flatten_cons,
+      List.flatten_nil, List.append_nil, insertColumnWithLoop]
+    have hvi : vecInsert (init'.flatten ++ last ++ T) (column + n * columns) vl =
+        some (init'.flatten ++ (last.insertIdx column vl ++ T)) := by
+      unfold vecInsert
+      have : column + n * columns ≤ (init'.flatten ++ last ++ T).length := by
+        simp [hflat, hlast]; omega
+      rw [if_pos this, show column + n * columns = init'.flatten.length + column by omega,
+        List.append_assoc, insertIdx_append_right',
+        insertIdx_append_left' _ _ _ _ (by omega)]
+    simp only [hvi]
+    rw [ih init' v' (last.insertIdx column vl ++ T) hi' hv' hr']
+    rw [List.zipWith_append (by omega)]
+    simp
+
+theorem insertColumnLoop_eq (columns column : Nat) (v : α) :
+    ∀ (rowsL : List Nat) (data : List α),
+      insertColumnLoop columns column v rowsL data =
+        insertColumnWithLoop columns column rowsL (List.replicate rowsL.length v) data := by
+  intro rowsL
+  induction rowsL with
+  | nil => intro data; simp [insertColumnLoop, insertColumnWithLoop]
+  | cons r rest ih =>
+    intro data
+    simp only [List.length_cons, List.replicate_succ, insertColumnLoop, insertColumnWithLoop]
+    cases vecInsert data (column + r * columns) v with
+    | none => rfl
+    | some d => exact ih d
+
+theorem rect_zipWith_insertIdx {c : Nat} (rs : Rows α) (h : Rect c rs) (column : Nat)
+    (hcol : column ≤ c) (vals : List α) :
+    Rect (c + 1) (List.zipWith (fun r v => r.insertIdx column v) rs vals) := by
+  induction rs generalizing vals with
+  | nil => simp [Rect]
+  | cons x xs ih =>
+    cases vals with
+    | nil => simp [Rect]
+    | cons v vs =>
+      simp only [List.zipWith_cons_cons]
+      refine Rect.cons ?_ (ih h.tail vs)
+      rw [List.length_insertIdx_of_le_length (by rw [h.head]; exact hcol), h.head]
+
+/-- `insert_column_with` (repaired) on the stored form -/
+theorem insertColumnWith_ofRows {c : Nat} (rs : Rows α) (h : Rect c rs) (column : Nat)
+    (values : List α) :
+    (ofRows rs c).insertColumnWith column values =
+      if column ≤ c ∧ rs.length ≤ values.length then
+        ⟨ofRows (List.zipWith (fun r v => r.insertIdx column v) rs values) (c + 1), none⟩
+      else ⟨ofRows rs c, some .explicit⟩ := by
+  unfold insertColumnWith
+  simp only [ofRows]
+  by_cases h1 : column ≤ c
+  · by_cases h2 : rs.length ≤ values.length
+    · have hl : (values.take rs.length).length = rs.length := by simp; omega
+      have h2' : rs.length ≤ (values.take rs.length).length := by omega
+      simp only [h1, h2, h2', if_true, and_self]
+      have := insertColumnWithLoop_spec c column h1 rs.length rs (values.take rs.length) [] rfl hl h
+      simp only [List.append_nil] at this
+      rw [this]
+      simp only [Res.mk.injEq, Matrix.mk.injEq, and_true]
+      have e : List.zipWith (fun r v => List.insertIdx r column v) rs (values.take rs.length) =
+          List.zipWith (fun r v => List.insertIdx r column v) rs values := by
+        rw [List.zipWith_eq_zipWith_take_min (l₂ := values)]
+        have : min rs.length values.length = rs.length := by omega
+        rw [this, List.take_length]
+      rw [e]
+      simp; omega
+    · have hl : ¬ rs.length ≤ (values.take rs.length).length := by simp; omega
+      simp only [h1, h2, hl, if_true, and_false, if_false]
+  · simp [h1]
+
+/-- `insert_column` on the stored form -/
+theorem insertColumn_ofRows {c : Nat} (rs : Rows α) (h : Rect c rs) (column : Nat) (v : α) :
+    (ofRows rs c).insertColumn column v =
+      if column ≤ c then ⟨ofRows (rs.map (·.insertIdx column v)) (c + 1), none⟩
+      else ⟨ofRows rs c, some .explicit⟩ := by
+  unfold insertColumn
+  simp only [ofRows]
+  by_cases h1 : column ≤ c
+  · simp only [h1, if_true]
+    rw [insertColumnLoop_eq]
+    have hl : (List.replicate rs.length v).length = rs.length := by simp
+    have := insertColumnWithLoop_spec c column h1 rs.length rs (List.replicate rs.length v) []
+      rfl hl h
+    simp only [List.append_nil, List.reverse_replicate] at this
+    simp only [List.length_reverse, List.length_range]
+    rw [this]
+    simp only [Res.mk.injEq, Matrix.mk.injEq, and_true]
+    have e : List.zipWith (fun r v => List.insertIdx r column v) rs (List.replicate rs.length v) =
+        rs.map (·.insertIdx column v) := by
+      clear this hl h
+      induction rs with
+      | nil => rfl
+      | cons x xs ih => simp [List.replicate_succ, ih]
+    rw [e]
+    simp
+  · simp [h1]
+
 end Matrix
 end EasyMl
